@@ -1,4 +1,4 @@
-\* C17 spec-level negative controls: small spaces; c17.py sets Mode, switches ONE of the eight negative-control constants
+\* C17 spec-level negative controls: small spaces; c17.py sets Mode, switches ONE of the nine negative-control constants
 \* to TRUE, keeps ONE invariant and requires TLC to report it (see CopyrightDoc.tla)
 CONSTANTS
   Mode = "codec"
